@@ -179,14 +179,52 @@ func genWorld(r *Rng, maxSources int) *world {
 			}
 		}
 		gen(mod, 0)
-		// direct eval somewhere: flag the scope and its ancestors, pin most symbols on the chain
-		if len(all) > 0 && r.Chance(25) {
-			sc := all[r.Intn(len(all))]
-			for p := sc; p != nil; p = p.parent {
-				p.directEval = true
-				for _, id := range p.members {
-					if r.Chance(85) && w.syms[id].kind != ast.SymbolLabel {
-						w.syms[id].flags |= ast.MustNotBeRenamed
+		// direct eval in one to three scopes (often siblings, so that a scope has several
+		// direct-eval children): flag each scope and its ancestors, pin most symbols on the
+		// chains, and give the pinned symbols of the eval scopes themselves the short names
+		// the minifier generates first
+		if len(all) > 0 && r.Chance(35) {
+			k := r.Range(1, 3)
+			var picked []*gscope
+			first := all[r.Intn(len(all))]
+			picked = append(picked, first)
+			for len(picked) < k {
+				var cand []*gscope
+				if first.parent != nil && r.Chance(70) {
+					for _, sib := range first.parent.children {
+						if sib != first {
+							cand = append(cand, sib)
+						}
+					}
+				}
+				if len(cand) == 0 {
+					cand = all
+				}
+				picked = append(picked, cand[r.Intn(len(cand))])
+			}
+			short := []string{"a", "b", "e", "t", "n", "i", "o", "r", "s", "c"}
+			for _, sc := range picked {
+				if sc.label >= 0 {
+					continue
+				}
+				for k := r.Range(0, 2); k > 0; k-- { // extra pinned short names in the eval scope itself
+					sc.members = append(sc.members, newSym(short[r.Intn(len(short))], ast.SymbolOther, ast.MustNotBeRenamed))
+				}
+				for p := sc; p != nil; p = p.parent {
+					p.directEval = true
+					for _, id := range p.members {
+						if r.Chance(85) && w.syms[id].kind != ast.SymbolLabel {
+							w.syms[id].flags |= ast.MustNotBeRenamed
+						}
+					}
+				}
+				// a renamable symbol in a non-eval scope below the eval scope
+				if r.Chance(60) {
+					child := &gscope{label: -1, parent: sc}
+					sc.children = append(sc.children, child)
+					all = append(all, child)
+					for k := r.Range(1, 3); k > 0; k-- {
+						child.members = append(child.members, newSym(namePool[r.Intn(len(namePool))], ast.SymbolOther, 0))
 					}
 				}
 			}
@@ -382,6 +420,31 @@ func (w *world) visNumber(top []int, nested []*gscope) (sets [][]int, wf bool) {
 
 func sameSpace(a, b int) bool { return a == b && (a == 0 || a == 2) }
 
+// harness-side statement of what must be reserved: the pinned names of every module scope and
+// of every scope reached from it through scopes that contain direct eval (all such children)
+func (w *world) evalPinnedNames() map[string]bool {
+	out := map[string]bool{}
+	var walk func(g *gscope)
+	walk = func(g *gscope) {
+		for _, id := range append(append([]int{}, g.members...), g.generated...) {
+			if w.pinned(id) {
+				out[w.syms[id].name] = true
+			}
+		}
+		if g.directEval {
+			for _, c := range g.children {
+				if c.directEval {
+					walk(c)
+				}
+			}
+		}
+	}
+	for _, m := range w.modules {
+		walk(m)
+	}
+	return out
+}
+
 // ---- the correspondence families
 
 // reserved names are emitted as (number of keyword/strict-mode keys present, other keys):
@@ -487,9 +550,10 @@ func genRenamerCases(r *Rng, n int, st *Stats, cf *caseSink) {
 						}
 					}
 				}
+				mustKeep := w.evalPinnedNames()
 				for id := range w.syms {
-					if c := w.follow(id); c == id && (w.ns(id) == 0 || w.ns(id) == 2) && got[id] != w.syms[id].name && resSet[got[id]] {
-						bad = fmt.Sprintf("symbol %d renamed to the reserved name %q", id, got[id])
+					if c := w.follow(id); c == id && (w.ns(id) == 0 || w.ns(id) == 2) && got[id] != w.syms[id].name && (resSet[got[id]] || mustKeep[got[id]]) {
+						bad = fmt.Sprintf("symbol %d renamed to the reserved (pinned / free) name %q", id, got[id])
 					}
 				}
 				if bad != "" {
@@ -698,6 +762,7 @@ func (w *world) checkMinify(slotOf []int64, usedTop, counted map[int]bool, got [
 		st.Fail(kind, d, msg, expect)
 	}
 	named := func(id int) bool { return slotOf[id] >= 0 || usedTop[id] }
+	mustKeep := w.evalPinnedNames()
 	for id := range w.syms {
 		if w.follow(id) != id {
 			continue
@@ -715,6 +780,10 @@ func (w *world) checkMinify(slotOf []int64, usedTop, counted map[int]bool, got [
 		}
 		if nsid == 0 && reserved[got[id]] != 0 {
 			fail("minified-name-reserved", fmt.Sprintf("symbol %d got the reserved name %q", id, got[id]), "a name outside the reserved set")
+			return
+		}
+		if nsid == 0 && mustKeep[got[id]] {
+			fail("minified-name-captures-pinned-name", fmt.Sprintf("symbol %d got the name %q of a pinned symbol (module scope or direct-eval chain)", id, got[id]), "a name different from every pinned name of the module scopes and their direct-eval chains")
 			return
 		}
 		if nsid == 0 && counted[id] && w.syms[id].flags.Has(ast.MustStartWithCapitalLetterForJSX) && got[id] != "" && got[id][0] >= 'a' && got[id][0] <= 'z' {
